@@ -1,15 +1,15 @@
 SPECIFICATION FairSpec
 CONSTANTS
   Msgs = {"m1","m2"}
-  Closers = {c1, c2}
+  Closers = {w}
   AllowStop = TRUE
-  Watcher = nowatcher
-  AllowCtxCancel = FALSE
-  AllowTimeout = TRUE
+  Watcher = w
+  AllowCtxCancel = TRUE
+  AllowTimeout = FALSE
   LegacyConcurrentWaits = FALSE
   LegacyStartedFirst = FALSE
   LegacyHandleClose = FALSE
   LegacySecondCloseNil = FALSE
-INVARIANTS Graceful ErrorOnlyOnTimeout NoPanic RunAfterClose SubClosedAtEnd DroppedNotHandled
-PROPERTIES AllReturn
+INVARIANTS Graceful ErrorOnlyOnTimeout NoPanic RunAfterClose DroppedNotHandled
+PROPERTIES SelfClose AllReturn
 CHECK_DEADLOCK FALSE
